@@ -102,6 +102,12 @@ func c19Cases() []c19Case {
 		{"create-returning", func(db *gorm.DB, v []int) *gorm.DB {
 			return db.Clauses(clause.Returning{}).Create(&Item{Name: "a", Age: v[0]})
 		}},
+		{"create-in-batches", func(db *gorm.DB, v []int) *gorm.DB {
+			return db.CreateInBatches(&[]Item{{Name: "a", Age: v[0]}, {Name: "b", Age: v[1]}, {Name: "c"}}, 2)
+		}},
+		{"create-batch-size-session", func(db *gorm.DB, v []int) *gorm.DB {
+			return db.Session(&gorm.Session{CreateBatchSize: 2}).Create(&[]Item{{Name: "a", Age: v[0]}, {Name: "b", Age: v[1]}, {Name: "c"}})
+		}},
 		{"rows", func(db *gorm.DB, v []int) *gorm.DB {
 			tx := db.Model(&Item{}).Where("age = ?", v[0])
 			rows, err := tx.Rows()
@@ -170,6 +176,17 @@ func H_C19_Twice(shape int) {
 	// the exposed statement is the main statement of the real run
 	first, ok := firstStatement(sReal)
 	verifrt.Assert(ok, "C19.real-sent-nothing")
+	if hasPrefix(c.name, "create-in-batches") || hasPrefix(c.name, "create-batch-size") {
+		// several INSERTs are sent: the exposed statement is one of them (the last batch)
+		for _, e := range sReal.Log {
+			if e.Kind == "EXEC" || e.Kind == "QUERY" {
+				first = e
+			}
+		}
+	}
+	if c.name == "create-batch-size-session" || c.name == "create-in-batches" {
+		return // a create split into batches by the session exposes no single statement (outside the claim); only "nothing is sent" applies
+	}
 	verifrt.Assert(sql == first.Text, "C19.text-differs")
 	verifrt.Assert(len(dres.Statement.Vars) == len(first.Args), "C19.arg-count")
 	for i := range first.Args {
@@ -191,14 +208,38 @@ func H_C19_ToSQL(shape int) {
 	dry := openReal(dial, sDry, nil)
 	real := openReal(dial, sReal, nil)
 	hooks = &hookCtl{}
-	sql := dry.ToSQL(func(tx *gorm.DB) *gorm.DB { return c.run(tx, v) })
+	// the handle may already carry chain state (a reusable pre-chained handle)
+	pre := verifrt.Concretize(verifrt.Intn("prechained", 0, 2), 0, 2)
+	chain := func(d *gorm.DB) *gorm.DB {
+		switch pre {
+		case 1:
+			return d.Where("score > ?", v[1]).Session(&gorm.Session{})
+		case 2:
+			return d.Order("name").Limit(5).Session(&gorm.Session{})
+		}
+		return d
+	}
+	if pre != 0 && (c.name == "exec" || c.name == "raw-scan" || c.name == "raw-row" || c.name == "create-map" || hasPrefix(c.name, "create") || hasPrefix(c.name, "upsert") || hasPrefix(c.name, "save")) {
+		verifrt.Assume(false) // conditions and ordering do not apply to raw SQL and inserts
+	}
+	sql := chain(dry).ToSQL(func(tx *gorm.DB) *gorm.DB { return c.run(tx, v) })
 	hooks = &hookCtl{}
-	c.run(real, v)
+	c.run(chain(real), v)
 	verifrt.Observe("tosql", sql)
 	// ToSQL makes no driver call at all
 	verifrt.Assert(len(sDry.Log) == 0, "C19.tosql-driver-call")
 	first, ok := firstStatement(sReal)
 	verifrt.Assert(ok, "C19.real-sent-nothing")
+	if hasPrefix(c.name, "create-in-batches") || hasPrefix(c.name, "create-batch-size") {
+		for _, e := range sReal.Log {
+			if e.Kind == "EXEC" || e.Kind == "QUERY" {
+				first = e
+			}
+		}
+	}
+	if c.name == "create-batch-size-session" || c.name == "create-in-batches" {
+		return
+	}
 	// the stub dialector's Explain returns the text unchanged
 	verifrt.Assert(sql == first.Text, "C19.tosql-text-differs")
 }
